@@ -641,7 +641,7 @@ class Machine(object):
                 mark = len(self.dostack)
                 while self.dostack[-1] < stop:
                     self.census.add("exec:do")
-                    yield from self._segment(node[1], dobody=True)
+                    yield from self._segment(node[1], dobody="+loop" if node[2] else "loop")
                     self.tick()
                     if node[2]:
                         self.need(1)
@@ -694,7 +694,9 @@ class Machine(object):
                     # nothing is left to execute: the machine reports is_done right away (no observable difference
                     # other than the flag; see ASSUMPTIONS of checks/c19.py)
                     break
-                self.paused_at_do_body_end = dobody and index == last
+                self.paused_at_do_body_end = bool(dobody) and index == last
+                if dobody == "+loop" and index == last:
+                    self.flags.add("pause-at-steploop-body-end")
                 if index == last:
                     # a block that ends with 'pause' is left before pausing (its nesting level is free for a Python-side call)
                     self.depth -= 1
